@@ -1543,8 +1543,12 @@ func (l *lexer) linebreak() bool {
 			}
 		case '#':
 			// comment
-			hash = true
-			l.mark(-1)
+			if hash {
+				l.b.WriteRune(r)
+			} else {
+				hash = true
+				l.mark(-1)
+			}
 		case '\t', ' ':
 			// <blank>
 			if hash {
